@@ -149,7 +149,10 @@ func (m *vfMon) get(c *Cache[uint64, vfVal], k uint64) (vfVal, bool) {
 
 // vfStoreHas looks the key up in its shard directly (white box, ghost).
 func vfStoreHas(c *Cache[uint64, vfVal], h uint64) (storeItem[vfVal], bool) {
-	sm := c.storedItems.(*shardedMap[vfVal])
+	sm, isSM := c.storedItems.(*shardedMap[vfVal])
+	if !isSM {
+		return storeItem[vfVal]{}, false
+	}
 	it, ok := sm.shards[h%numShards].data[h]
 	return it, ok
 }
